@@ -61,6 +61,9 @@ type avPos struct {
 const avCallUses = "uses: owner/repo/.github/workflows/w.yml@v1\n"
 const avNeutral = "${{ fromJSON(toJSON('x')) }}"
 
+// an earlier sibling element whose type is any (text differs from every placeholder: equal values are duplicates)
+const avSibling = "${{ fromJSON(toJSON('sibling')) }}"
+
 func avContainer(prefix string) map[string]string {
 	// bodies of a container mapping, relative to the key that holds it
 	return map[string]string{
@@ -152,6 +155,31 @@ var avPositions = func() map[string]avPos {
 	m["jobs.<job_id>.strategy.matrix.exclude#expr"] = avPos{job: "strategy:\n  matrix:\n    os: [a, b]\n    exclude: @@\n"}
 	m["jobs.<job_id>.strategy.matrix.exclude[*]#expr"] = avPos{job: "strategy:\n  matrix:\n    os: [a, b]\n    exclude:\n      - os: a\n      - @@\n"}
 	m["jobs.<job_id>.strategy.matrix.exclude[*].<key>"] = avPos{job: "strategy:\n  matrix:\n    os: [a, b]\n    exclude:\n      - os: @@\n"}
+	// elements after an earlier any-typed sibling, and elements nested one level deeper (rows, include, exclude)
+	mx := "jobs.<job_id>.strategy.matrix."
+	mxRow := func(body string) avPos { return avPos{job: "strategy:\n  matrix:\n    os:\n" + avIndentAll(body, 6)} }
+	m[mx+"<row>[*]#after-any"] = mxRow("- " + avSibling + "\n- @@\n")
+	m[mx+"<row>[*].<key>#after-any"] = mxRow("- k1: " + avSibling + "\n  k2: @@\n")
+	m[mx+"<row>[*][*]#after-any"] = mxRow("- - " + avSibling + "\n  - @@\n")
+	m[mx+"<row>[*][*][*]#after-any"] = mxRow("- - - " + avSibling + "\n    - @@\n")
+	m[mx+"<row>[*].<key>[*]#after-any"] = mxRow("- k:\n    - " + avSibling + "\n    - @@\n")
+	m[mx+"<row>[*].<key>.<key>#after-any"] = mxRow("- k:\n    k1: " + avSibling + "\n    k2: @@\n")
+	for _, sib := range []struct{ tag, val string }{{"", "a"}, {"#after-any", avSibling}} {
+		inc := func(body string) avPos {
+			return avPos{job: "strategy:\n  matrix:\n    os: [a, b]\n    include:\n      - os: c\n" + avIndentAll(body, 8)}
+		}
+		exc := func(rows, body string) avPos {
+			return avPos{job: "strategy:\n  matrix:\n" + avIndentAll(rows, 4) + "    exclude:\n" + avIndentAll(body, 6)}
+		}
+		m[mx+"include[*].<key>[*]"+sib.tag] = inc("flags:\n  - " + sib.val + "\n  - @@\n")
+		m[mx+"include[*].<key>.<key>"+sib.tag] = inc("cfg:\n  k1: " + sib.val + "\n  k2: @@\n")
+		m[mx+"exclude[*].<key>[*]"+sib.tag] = exc("os: [a, b]\nflags:\n  - [a, b]\n", "- flags:\n    - "+sib.val+"\n    - @@\n")
+		m[mx+"exclude[*].<key>.<key>"+sib.tag] = exc("os: [a, b]\ncfg:\n  - {k1: a, k2: b}\n", "- cfg:\n    k1: "+sib.val+"\n    k2: @@\n")
+		if sib.tag != "" {
+			m[mx+"include[*].<key>"+sib.tag] = inc("e1: " + sib.val + "\ne2: @@\n")
+			m[mx+"exclude[*].<key>"+sib.tag] = exc("os: [a, b]\nver: [1, 2]\n", "- os: "+sib.val+"\n  ver: @@\n")
+		}
+	}
 	m["jobs.<job_id>.continue-on-error"] = avPos{job: "continue-on-error: @@\n"}
 	m["jobs.<job_id>.timeout-minutes"] = avPos{job: "timeout-minutes: @@\n"}
 	for suffix, body := range avContainer("container") {
